@@ -134,6 +134,8 @@ static void build_items()
     I.push_back(one("S:identifier-like-keyword", "truely", pf::Sym("truely")));
     I.push_back(one("S:identifier-like-keyword", "nowhere", pf::Sym("nowhere"), true));
     I.push_back(one("S:identifier-like-keyword", "MIDINOTE", pf::Sym("MIDINOTE")));
+    // a reserved word followed by '_' (or a digit) is one identifier
+    for(const char *w : {"true_color", "false_", "nil_value", "inf_norm", "now_playing", "immediately_after", "true1", "MIDI_in", "BLOB_x"}) I.push_back(one("S:identifier-keyword-underscore", w, pf::Sym(w)));
     // identifiers that begin with the first letter of a keyword (t f n i M B) and contain digits
     I.push_back(one("S:identifier-with-digits", "note2", pf::Sym("note2")));
     I.push_back(one("S:identifier-with-digits", "t0", pf::Sym("t0")));
@@ -160,6 +162,10 @@ static void build_items()
     I.push_back(one("t:date-hh:mm", "2000-01-01 00:00", pf::Tt(pf::utc_secs(2000, 1, 1, 0, 0, 0), 0)));
     I.push_back(one("t:date-hh:mm", "2016-11-16 19:44", pf::Tt(pf::utc_secs(2016, 11, 16, 19, 44, 0), 0), true));
     I.push_back(one("t:date-hh:mm:ss", "2016-11-16 19:44:06", pf::Tt(pf::utc_secs(2016, 11, 16, 19, 44, 6), 0), true));
+    // seconds only / minutes only / hours only after midnight (each field decides alone whether a clock part is printed)
+    I.push_back(one("t:date-hh:mm:ss", "2016-11-16 00:00:07", pf::Tt(pf::utc_secs(2016, 11, 16, 0, 0, 7), 0)));
+    I.push_back(one("t:date-hh:mm:ss", "2016-11-16 00:07:00", pf::Tt(pf::utc_secs(2016, 11, 16, 0, 7, 0), 0)));
+    I.push_back(one("t:date-hh:mm:ss", "2016-11-16 05:00:00", pf::Tt(pf::utc_secs(2016, 11, 16, 5, 0, 0), 0)));
     I.push_back(one("t:date-fraction", "2017-03-22 20:29:59.125", pf::Tt(pf::utc_secs(2017, 3, 22, 20, 29, 59), 0x20000000u), true));
     // --- repetitions NxA (every element kind except ranges)
     I.push_back(rep(3, one("int:dec", "42", pf::I(42)), true));
